@@ -611,6 +611,9 @@ def parsing_cases(rng, n, tally, printed):
     # 2. sympy strings
     sy = sympy_strings(rng, int(n * 0.35))
     tally.batch("sympy-str", [(op, s) for s in sy for op in ("tokenize", "postfix", "parse")])
+    # 2b. few atoms, both operand orders of the non-commutative operators, repeated sub-expressions (sharing in the parser)
+    sh = [G.share_expr(rng, rng.choice([1, 2, 2, 3]))[0] for _ in range(int(n * 0.15))]
+    tally.batch("sharing", [(op, s) for s in sh for op in ("postfix", "parse")])
     # 3. malformed
     base = sy + strs + FIXED_STRINGS
     mal = list(FIXED_STRINGS)
